@@ -344,6 +344,10 @@ package main
 //@   modifies inferred
 //@   ensures [C11] login_once: old(s.uid) != types.ZeroUid ==> s.uid == old(s.uid) && s.authLvl == old(s.authLvl)
 //@   assert at call onLogin [C11] only_after_success: err == nil && challenge == nil && rec != nil && rec.State == types.StateOK && s.uid == types.ZeroUid
+// (which credentials must be validated is decided by the level of the account being logged into - the session has no
+// level yet -, and whenever that level requires any, the responses are checked before the login completes)
+//@   assert at call onLogin [C11] validation_by_account_level: (rec.Features & auth.FeatureValidated) == 0 && len(globals.authValidators[rec.AuthLevel]) > 0 ==> called("validatedCreds") == old(called("validatedCreds")) + 1
+//@   assert at call stringSliceDelta [C11] missing_against_account_level: ref($1) == ref(globals.authValidators[rec.AuthLevel])
 
 //@ func (s *Session) onLogin(msgID string, timestamp time.Time, rec *auth.Rec, missing []string) (reply *ServerComMessage)
 //@   requires [C11] s != nil && rec != nil
@@ -972,6 +976,8 @@ package main
 //@   requires [C13,assumed] validators_registered: forall m string :: (m in globals.validators) ==> validatorConfigured(m)
 //@   modifies inferred
 //@   assert at call PreCheck [C13] validator_exists: $0 != nil
+// (creating an account and logging in with it in one step is for sessions that have not logged in)
+//@   assert at call onLogin [C11] fresh_session_only: msg.Acc.Login && s.uid == types.ZeroUid
 // (a new account's tags are the list that was checked to contain no restricted tag)
 //@   assert at call store.UsersPersistenceInterface.Create [C19] tags_checked: len($1.Tags) > 0 ==> restrictedTagsSame && ref($1.Tags) == restrictedTagsCheckedOld
 //@   loop 1
